@@ -26,6 +26,16 @@ type service struct {
 func (s *service) Evaluate(ctx context.Context, request *pb.EvaluateRequestProto) (*pb.EvaluateResponseProto, error) {
 	s.lock.RLock()
 	defer s.lock.RUnlock()
+	// Collections are evaluated lazily, and map-parallel fills them from its
+	// own goroutines, which read the world. If the result isn't consumed to
+	// the end they're still running when we return: stop them, and wait for
+	// them, before the lock is released and the world can change.
+	ctx, cancel := context.WithCancel(ctx)
+	var goroutines sync.WaitGroup
+	defer func() {
+		cancel()
+		goroutines.Wait()
+	}()
 	w := s.worlds.FindOrCreateWorld(b6.NewFeatureIDFromProto(request.Root))
 
 	apply := func(change ingest.Change) (b6.Collection[b6.FeatureID, b6.FeatureID], error) {
@@ -45,6 +55,7 @@ func (s *service) Evaluate(ctx context.Context, request *pb.EvaluateRequestProto
 		FunctionSymbols: s.fs,
 		Adaptors:        s.a,
 		Context:         ctx,
+		Goroutines:      &goroutines,
 	}
 	context.FillFromOptions(&s.options)
 	expression, err := b6.ExpressionFromProto(request.Request)
